@@ -106,7 +106,14 @@ def resolve_target(target):
         rest = parts[i:]
         for j, p in enumerate(rest):
             if isinstance(obj, type):
-                obj = vars(obj)[p]
+                # the raw class attribute (function / classmethod / staticmethod / property), wherever in the MRO it is
+                # defined: a method moved to a base class or a mixin is still the method of this class
+                for k in obj.__mro__:
+                    if p in vars(k):
+                        obj = vars(k)[p]
+                        break
+                else:
+                    raise AttributeError(f"{target}: {obj.__name__} has no attribute {p}")
             else:
                 obj = getattr(obj, p)
         if isinstance(obj, (classmethod, staticmethod)):
@@ -385,8 +392,7 @@ def verify_contract(contract, timeout_ms=10000, max_paths=400, only=None):
     opts["no_summary"] = set(opts["no_summary"]) | {contract.target}
     if hasattr(contract, "loops"):
         import ast as _ast
-        mod, qn = _split(contract.target)
-        fd = SOURCE.funcdef(mod, qn)
+        fd = SOURCE.funcdef(f.__module__, f.__qualname__)       # where the function is DEFINED (it may be re-exported / inherited)
         nodes = [n for n in _ast.walk(fd) if isinstance(n, (_ast.For, _ast.While))]
         nodes.sort(key=lambda n: (n.lineno, n.col_offset))
         lm = {}
